@@ -79,7 +79,7 @@ func init() {
 	})
 	register(&Driver{
 		ID: "C11", Level: "exploration",
-		Rule: "run index selects the family: (a) include digraphs over {page, CompA, CompB} enumerated (512 graphs x 4 edge styles: plain / data-bounded v-if / inside v-for / through a slot) then 4-node graphs with mixed styles incl. shorthand tags, every entry point, map/struct/pointer data, recursion depth 0-4; (b) layout graphs: self reference, 2- and 3-cycles, missing target, chains of 5..130, page as its own layout, self-referencing base layout; (c) slot content reused at several <slot> positions and inside loops; (d) hostile typed data in directive positions; (e) runs of every other workload family (C10 histories and C16 histories with added fs/writer/context/reader faults, C12 fault grids, C15 edit histories, C17 stack histories) on which only the crash monitors are evaluated. Oracle: the worker survives, no panic reaches the caller, the call returns within the kernel step budget, an unconditional include/layout cycle returns an error. distinct = distinct (family, entry class, outcome kind)",
+		Rule: "run index selects the family: (a) include digraphs over {page, CompA, CompB} enumerated (512 graphs x 5 edge styles: plain / data-bounded v-if / inside v-for / through a slot / include as the first node of the file) then 4-node graphs with mixed styles incl. shorthand tags, every entry point, map/struct/pointer data, recursion depth 0-4; (b) layout graphs: self reference, 2- and 3-cycles, missing target, chains of 5..130, page as its own layout, self-referencing base layout; (c) slot content reused at several <slot> positions and inside loops; (d) hostile typed data in directive positions; (e) runs of every other workload family (C10 histories and C16 histories with added fs/writer/context/reader faults, C12 fault grids, C15 edit histories, C17 stack histories) on which only the crash monitors are evaluated. Oracle: the worker survives, no panic reaches the caller, the call returns within the kernel step budget, an unconditional include/layout cycle returns an error. distinct = distinct (family, entry class, outcome kind)",
 		Runs: func(tier string) int {
 			if tier == "thorough" {
 				return 2000000
